@@ -71,6 +71,13 @@ func World(prop string, r *rng.R, n int) Result {
 		res.Failures = append(res.Failures, fails...)
 	}
 	res.Notes["operation_outcomes"] = stats
+	if prop == "C07" {
+		// the other entry points of the middleware: handshake, acknowledgement, timeout callbacks, the ICS-4 send path
+		ctx, _ := wr.w.S.Ctx.CacheContext()
+		fs := otherEntryPoints(r.Fork(), ctx, wr.w.S.App.OrbiterKeeper.Adapter(), 220)
+		res.Failures = append(res.Failures, fs...)
+		res.Notes["other_entry_points_driven"] = 220
+	}
 	if prop == "C19" && os.Getenv("VERIF_C19_CHILD") == "" && os.Getenv("VERIF_DRIVE_OUT") != "" {
 		res.Notes["second_process"] = secondProcess(&res)
 	}
